@@ -863,6 +863,13 @@ class EventBus:
 
     async def _run_loop(self) -> None:
         """Main event processing loop"""
+        # The run loop task is created with a copy of the context of whoever dispatched the first event.
+        # If that was a handler, the copy says "inside a handler, holding the global lock": reset it, the
+        # run loop is never inside a handler and has to acquire the global lock itself for every event
+        holds_global_lock.set(False)
+        inside_handler_context.set(False)
+        _current_event_context.set(None)
+        _current_handler_id_context.set(None)
         try:
             while self._is_running:
                 try:
